@@ -317,7 +317,9 @@ def mutation_guided(wd, bd, seed, tier, ev, verdict):
     tp = os.path.join(wd, "mut_replay.ndjson")
     panics = harness(bd, tp, mode="replay", **{"in": bp})
     events = load_trace(tp)
-    aborted = [e for e in events if e.get("e") == "reset" and e.get("aborted")]
+    # (runs aborted because the background writer is dead were reported by harness() as no_progress)
+    aborted = [e for e in events if e.get("e") == "reset" and e.get("aborted")
+               and "background writer dead" not in str(e.get("aborted"))]
     if aborted:
         raise vp.ToolError(f"mutation-guided replay: operation hangs / run aborted: {aborted[:2]}")
     failing = []
@@ -645,7 +647,8 @@ def run(tier, seed):
         ev[name + "_runs"] = n
         ev[name + "_failing"] = f
         total_runs += n
-        ab = [e for e in events if e.get("e") == "reset" and e.get("aborted")]
+        ab = [e for e in events if e.get("e") == "reset" and e.get("aborted")
+              and "background writer dead" not in str(e.get("aborted"))]
         if ab:
             raise vp.ToolError(f"{name}: operation hangs / run aborted: {ab[:2]}")
     ev["panics_in_code_under_test"] = panics
